@@ -2,16 +2,36 @@
 import vcheck as V
 LEVEL = "proof"
 PROP_FILE = "Properties_C01.v"
-RULE = ("random point clouds / meshes / keyframe animations (0..400 points, 0..3 attributes of every data type, quantized or not, "
+RULE = ("(1) model correspondence: random point clouds / meshes / keyframe animations (0..400 points, 0..3 attributes of every data type, quantized or not, "
         "explicit quantization, prediction on/off, built-in compression on/off, speeds 0..10, metadata, raw/compressed connectivity) "
         "encoded by the real sequential encoders: the model encoder must reproduce the bytes (symbol-scheme choice read off the stream); "
         "every stream, with trailing junk and in 2-4 corrupted variants, goes through the real and the model decoder, which must agree on "
-        "accept/reject and on every decoded value; distinct by case text")
+        "accept/reject and on every decoded value; distinct by case text. (2) all-methods search: grid-patch meshes with holes, seams, "
+        "non-manifold / degenerate / duplicated / flipped faces, shared position values, 1..5 attributes, and point clouds, encoded with "
+        "Edgebreaker standard/valence x speeds 0..10 x forced prediction schemes, kd-tree, sequential: unquantized values and triangles "
+        "must be unchanged (canonical multiset, orientation kept; Edgebreaker may drop position-degenerate faces) and the decoded "
+        "geometry must be identical to the sequential reference for the same quantization settings")
 FAIL_PREFIXES = ["C01", "C04/C01", "D10", "D11"]
 NEEDS = ["Model/SeqCodecInst.vo", "Base/DriverSupport.vo"]
 
 def corr_runs(ctx):
-    return [dict(tag="h_seq", harness="seq", driver="seq", args=[ctx.tier, ctx.seed], needs_vo=NEEDS, timeout=3000)]
+    return [dict(tag="h_seq", harness="seq", driver="seq", args=[ctx.tier, ctx.seed], needs_vo=NEEDS, timeout=3000),
+            # all methods (Edgebreaker standard/valence, kd-tree, sequential; forced prediction schemes): direct oracle +
+            # cross-method identity against the sequential reference, on the implementation only
+            dict(tag="h_c01", harness="c01", driver=None, args=[ctx.tier, ctx.seed], timeout=3000)]
+
+def extra(ctx, lib):
+    import os
+    p = os.path.join(V.BUILD, "C01_h_c01.cases")
+    for l in open(p):
+        if l.startswith("# STATS"):
+            ctx.cov["all_methods_search"] = l[2:].strip()
+            try:
+                kv = dict(x.split("=") for x in l.split()[2:5])
+                ctx.cov["evaluations"] = ctx.cov.get("evaluations", 0) + int(kv["encodes"])
+                ctx.cov["distinct_nontrivial"] = ctx.cov.get("distinct_nontrivial", 0) + int(kv["encodes"]) - int(kv["encode_failures"])
+            except Exception:
+                pass
 
 def classify(line):
     if line.startswith("! D11-empty-geometry-integer-attribute"):
